@@ -278,7 +278,8 @@ namespace glm
 		detail::float_t<float> const a(x);
 		detail::float_t<float> const b(y);
 
-		return abs(a.i - b.i);
+		// Sign-magnitude bit patterns are not ordered across zero: measure on the monotonic line
+		return static_cast<int>(abs(a.ordered() - b.ordered()));
 	}
 
 	GLM_FUNC_QUALIFIER int64 floatDistance(double x, double y)
@@ -286,6 +287,7 @@ namespace glm
 		detail::float_t<double> const a(x);
 		detail::float_t<double> const b(y);
 
-		return abs(a.i - b.i);
+		// Sign-magnitude bit patterns are not ordered across zero: measure on the monotonic line
+		return abs(a.ordered() - b.ordered());
 	}
 }//namespace glm
